@@ -19,6 +19,7 @@ type SVal struct {
 	BoxSort string
 	TypeArg types.Type // when the expression denotes a type
 	Nil     bool
+	FnV     *Val // function-typed argument that is a closure literal of the caller (cbres)
 }
 
 type Env struct {
@@ -665,6 +666,79 @@ func (e *Env) evalCall(x *Expr) SVal {
 		return SVal{S: e.inState(func() string { return t.bytesToStr(v.S) }), Sort: "Str"}
 	case "bitand":
 		return SVal{S: app("bit.and", e.evalInt(x.Args[0]), e.evalInt(x.Args[1])), Sort: "Int"}
+	case "cbres":
+		// cbres(f, a...): the result of the pure callback f applied to a... . Where f is a closure literal of the caller
+		// with a contract, a fresh value constrained by that contract's postconditions (instantiated at a...); otherwise
+		// an uninterpreted function of f and the arguments
+		fv := e.eval(x.Args[0])
+		var as []SVal
+		for _, a := range x.Args[1:] {
+			as = append(as, e.eval(a))
+		}
+		if fv.FnV != nil && fv.FnV.Fn != nil {
+			cf := fv.FnV.Fn
+			cc := t.eng.specs.Funcs[fnKey(cf)]
+			if cc != nil && len(cf.Params) == len(as) && cf.Signature.Results().Len() == 1 {
+				cc.Used = true
+				RT := t.resolve(cf.Signature.Results().At(0).Type())
+				key := "cbres:" + fnKey(cf) + ":" + fv.S
+				for _, a := range as {
+					key += "|" + a.S
+				}
+				if r, ok := t.cbresCache[key]; ok {
+					return SVal{S: r, T: RT, Sort: t.sortOf(RT)}
+				}
+				r := t.newConst("cbres", t.sortOf(RT))
+				t.assume(t.rangeFact(r, RT))
+				if t.cbresCache == nil {
+					t.cbresCache = map[string]string{}
+				}
+				t.cbresCache[key] = r
+				st := e.st
+				if e.old != nil {
+					st = e.old // the closure runs inside the callee: what it reads is taken from the call's pre-state
+				}
+				cenv := &Env{t: t, vars: map[string]SVal{}, st: st, old: st, pkg: cf.Pkg.Pkg, selfAlloc0: e.selfAlloc0}
+				for j, f := range cf.FreeVars {
+					if j < len(fv.FnV.Bnd) {
+						T := t.resolve(f.Type())
+						cenv.vars[f.Name()] = SVal{S: t.termOfOpt(fv.FnV.Bnd[j]), T: T, Sort: t.sortOf(T), Tgt: fv.FnV.Bnd[j].P}
+					}
+				}
+				for j, p := range cf.Params {
+					T := t.resolve(p.Type())
+					cenv.vars[p.Name()] = SVal{S: as[j].S, T: T, Sort: t.sortOf(T)}
+				}
+				rv := SVal{S: r, T: RT, Sort: t.sortOf(RT)}
+				cenv.vars["r0"], cenv.vars["result"] = rv, rv
+				if n := cf.Signature.Results().At(0).Name(); n != "" && n != "_" {
+					cenv.vars[n] = rv
+				}
+				for _, en := range cc.Ensures {
+					t.assume(cenv.evalBool(en.E))
+				}
+				return rv
+			}
+		}
+		var terms, sorts []string
+		terms = append(terms, fv.S)
+		for _, a := range as {
+			terms = append(terms, a.S)
+			sorts = append(sorts, a.Sort)
+		}
+		var RT types.Type
+		if fv.T != nil {
+			if sg, ok := e.resolveT(fv.T).Underlying().(*types.Signature); ok && sg.Results().Len() == 1 {
+				RT = t.resolve(e.resolveT(sg.Results().At(0).Type()))
+			}
+		}
+		if RT == nil {
+			e.errf(x, "cbres: the first argument is not a function with one result")
+		}
+		rs := t.sortOf(RT)
+		fn := cbresName(sorts, rs)
+		t.declareFun(fn, append([]string{"Int"}, sorts...), rs)
+		return SVal{S: app(fn, terms...), T: RT, Sort: rs}
 	case "bitor":
 		return SVal{S: app("bit.or", e.evalInt(x.Args[0]), e.evalInt(x.Args[1])), Sort: "Int"}
 	case "pow2":
